@@ -13,6 +13,7 @@ import (
 
 	"github.com/emersion/go-ical"
 	"github.com/emersion/go-vcard"
+	webdav "github.com/emersion/go-webdav"
 	"github.com/emersion/go-webdav/caldav"
 	"github.com/emersion/go-webdav/carddav"
 	"github.com/emersion/go-webdav/internal"
@@ -673,6 +674,49 @@ func emitObjRead(o *Out, r *RNG) {
 	}
 }
 
+// home-set discovery of both clients against the principal helper serving 0..2 home sets in either order
+func emitObjHomeSets(o *Out, r *RNG) {
+	principal := "/" + r.Pick(owNames) + "/"
+	var opts []webdav.BackendSuppliedHomeSet
+	var in []string
+	kinds := []string{"cal", "card"}
+	if r.Bool() {
+		kinds[0], kinds[1] = kinds[1], kinds[0]
+	}
+	for _, k := range kinds {
+		if !r.Chance(80) {
+			continue
+		}
+		p := principal + r.Pick(owNames) + "-" + k + "/"
+		if k == "cal" {
+			opts = append(opts, caldav.NewCalendarHomeSet(p))
+		} else {
+			opts = append(opts, carddav.NewAddressBookHomeSet(p))
+		}
+		in = append(in, sx(k, hx(p)))
+	}
+	hc := &handlerClient{h: http.HandlerFunc(func(w http.ResponseWriter, req *http.Request) {
+		webdav.ServePrincipal(w, req, &webdav.ServePrincipalOptions{CurrentUserPrincipalPath: principal, HomeSets: opts})
+	})}
+	res := guard(func() string {
+		ctx := context.Background()
+		out := []string{"-", "-"}
+		if c, err := caldav.NewClient(hc, "http://example.com/"); err == nil {
+			if hs, err := c.FindCalendarHomeSet(ctx, principal); err == nil {
+				out[0] = hx(hs)
+			}
+		}
+		if c, err := carddav.NewClient(hc, "http://example.com/"); err == nil {
+			if hs, err := c.FindAddressBookHomeSet(ctx, principal); err == nil {
+				out[1] = hx(hs)
+			}
+		}
+		return sx("cal", out[0]) + " " + sx("card", out[1])
+	})
+	o.Stat(fmt.Sprintf("objwire.homesets.%d", len(in)))
+	o.Emit("obj.homeset", hx(principal)+" "+sxl(in), res)
+}
+
 func famObjWire(o *Out, r *RNG, thorough bool) {
 	n := 300
 	if thorough {
@@ -687,6 +731,7 @@ func famObjWire(o *Out, r *RNG, thorough bool) {
 		emitObjMget(o, r, false)
 		emitObjMget(o, r, true)
 		emitObjRead(o, r)
+		emitObjHomeSets(o, r)
 	}
 }
 
